@@ -169,11 +169,14 @@ func (o *c08Oracle) cropAround(zeit int) bool {
 	for i := 1; i < len(o.w.Rot); i++ {
 		e := o.w.Rot[i]
 		lo, hi := int(e.Sow), int(e.Harvest)
-		if o.w.Cfg.AutoSow || o.w.Cfg.AutoHarvest {
-			lo -= 60
-			hi += 60
+		s1, _, h2 := o.w.AutoWindows(i)
+		if o.w.Cfg.AutoSow && int(s1) < lo {
+			lo = int(s1)
 		}
-		if zeit >= lo && zeit <= hi {
+		if o.w.Cfg.AutoHarvest && int(h2) > hi {
+			hi = int(h2)
+		}
+		if zeit >= lo && zeit <= hi+1 {
 			return true
 		}
 	}
@@ -232,7 +235,7 @@ func (o *c08Oracle) Probe(pt string, zeit, subd int, wdt float64, g *G, w *herme
 				map[string]float64{"eta": g.ETA, "tp": sumTP, "pot": pot})
 		}
 		for name, v := range map[string]float64{"TRREL": g.TRREL, "ETREL": g.ETREL} {
-			if !finite(v) || v < 0 || v > 1+1e-12 {
+			if !finite(v) || v < -1e-12 || v > 1+1e-12 { // a few ulps below zero are round-off of the dryness reduction factor
 				o.violate("stress-range", "stress-ratio-outside-unit-interval:"+name, zeit, fmt.Sprintf("%s = %v", name, v), nil)
 			}
 		}
@@ -432,7 +435,7 @@ func init() {
 		ReachKeys:  []string{"reach.transpiration-day", "reach.roots-at-groundwater", "reach.water-stress", "reach.cap-engaged", "reach.bare-day", "reach.radiation-from-sunshine", "reach.uptake-limited-by-available-water"},
 		Assumptions: []string{
 			"potential ET of a day is the day's increment of the model's cumulative potential-ET counter",
-			"the 6 mm cap is demanded on days outside every sowing-harvest span of the rotation (widened by 60 days under automatic sowing/harvest), the 6.5 mm cap everywhere",
+			"the 6 mm cap is demanded on days outside every sowing-harvest span of the rotation (widened to the automatic sowing window and latest harvest date under automatic management), the 6.5 mm cap everywhere",
 		},
 	})
 	register(&CheckDef{
